@@ -88,12 +88,16 @@ theorem writeV_length (env : Env) : ∀ v, LenOk env v := by
     | vecLen e el =>
       simp only [writeV] at h
       simp [lenV, writeAll_length env el vs ih b h]
+    | vecSlots e w el =>
+      simp only [writeV] at h
+      simp [lenV, writeAll_length env el vs ih b h]
   | hnode k fs ih =>
     intro ty b h
     cases ty with
     | prim p => simp [writeV] at h
     | vecCnt c el => simp [writeV] at h
     | vecLen e el => simp [writeV] at h
+    | vecSlots e w el => simp [writeV] at h
     | ref id =>
       simp only [writeV] at h
       simp only [lenV]
